@@ -24,3 +24,12 @@ func Bool2int(b bool) int {
 	}
 	return 0
 }
+
+// FloorDiv divides rounding toward negative infinity
+func FloorDiv(n, d int64) int64 {
+	q := n / d
+	if n%d != 0 && (n < 0) != (d < 0) {
+		q--
+	}
+	return q
+}
